@@ -423,7 +423,17 @@ def unit_site_radius(tier):
                 return out
             return orig_index(ii, t, idx, line, check=check)
         u.np.index = index
-        u.lib['numpy.min'] = lambda ii, ll, a: mind if (isinstance(a, SObj) and a._cls == 'TriuValues' and a.get('k') == 1) else (_ for _ in ()).throw(Unsupported('np.min form'))
+        def np_min(ii, ll, a):
+            if not (isinstance(a, SObj) and a._cls == 'TriuValues' and a.get('k') == 1):
+                raise Unsupported('np.min form')
+            t = a.get('of')
+            p_, q_ = z3.Ints('pi pj')
+            # the matrix whose strict upper triangle is minimised must be the matrix of minimum-image distances between the sites
+            ii.ctx.oblige(f'{ii.cur_func}.pair-distances-are-minimum-image-distances-of-the-sites@{ll}',
+                          z3.And(to_z3(t.shape[0]) == S, to_z3(t.shape[1]) == S,
+                                 z3.ForAll([p_, q_], z3.Implies(z3.And(p_ >= 0, p_ < q_, q_ < S), V.to_real(t.at(p_, q_)) == d(p_, q_)))), kind='pre', line=ll)
+            return mind
+        u.lib['numpy.min'] = np_min
         u.lib['numpy.argwhere'] = lambda ii, ll, a: []
         st.update({'S': S, 'sites': sites, 'va': va, 'mind': mind})
         return [], {'trajectory': traj, 'sites': sites, 'vibration_amplitude': va}, st
@@ -525,6 +535,14 @@ def replay_states(inputs):
     fam = inputs.get('family')
     traj, sites, info = hopping_system(seed, n_frames=inputs.get('n_frames', 25), n_diff=3, n_sites=inputs.get('n_sites', 5), family=fam,
                                        rotate=inputs.get('rotate', True), labels=inputs.get('labels'), vib=0.25)
+    if inputs.get('skewed_pair'):
+        # a 60-degree cell with two sites whose nearest periodic image is NOT the component-wise nearest one (fractional difference (0.45, 0.45, 0)):
+        # the automatic radius must be limited by their true distance
+        from pymatgen.core import Structure
+        M0 = Lattice.from_parameters(6.0, 6.0, 7.0, 90, 90, 60).matrix
+        sp0 = np.array([[0.1, 0.1, 0.5], [0.55, 0.55, 0.5], [0.1, 0.6, 0.1]])
+        traj, sites, info = hopping_system(seed, n_frames=20, n_diff=2, n_sites=3, site_positions=sp0, labels=['A', 'B', 'A'], vib=0.25, rotate=False, family='cubic')
+        matrix = (M0 @ random_rotation(rng).T).tolist() if inputs.get('rotate', True) else M0.tolist()
     if matrix is not None:
         M = np.array(matrix, dtype=float)
         if abs(np.linalg.det(M)) > 1e-3 and np.all(np.linalg.norm(M, axis=1) < 50) and np.all(np.linalg.norm(M, axis=1) > 1.5):
@@ -560,6 +578,14 @@ def replay_states(inputs):
             md = ds[np.triu_indices_from(ds, k=1)].min()
             if 2 * r > md + 1e-9:
                 bad.append(f'automatic radius {r} overlaps: minimal site distance {md}')
+            # the same with a vibration amplitude large enough to force the reduction to half the smallest site distance
+            try:
+                r_big = float(_compute_site_radius(trajectory=traj, sites=sites, vibration_amplitude=0.6 * md))
+                if 2 * r_big > md + 1e-9:
+                    bad.append(f'automatic radius {r_big} (large vibration amplitude) overlaps: minimal site distance {md}')
+            except ValueError:
+                if md >= 0.51:
+                    bad.append(f'_compute_site_radius raised although the sites are {md} A apart')
             f_eff = 1.0
         else:
             got = _calculate_atom_states(sites=sites, trajectory=diff, site_radius=radius, site_inner_fraction=f)
@@ -605,6 +631,8 @@ def bounded_states(tier, seed):
             inp['unvisited_first'] = True
         if c % 4 == 3:
             inp['auto_radius'] = True
+            if c % 8 == 7:
+                inp['skewed_pair'] = True
         r = st.guard(replay_states, inp)
         if r is None:
             continue
